@@ -275,11 +275,12 @@ impl Engine for StateSim {
         for _ in 0..n {
             let mut g = Group::default();
             for _ in 0..rng.range(0, max_txs) {
-                let mut tx = match (&last, rng.chance(1, 3)) {
+                let tx = match (&last, rng.chance(1, 3)) {
                     (Some(t), true) => t.clone(),
                     _ => gen_tx(rng, &world),
                 };
-                tx.auth_list = None;
+                // (EIP-7702 authorization lists stay: a delegation changes the code of an
+                // existing account without creating it - a transition kind of its own)
                 last = Some(tx.clone());
                 g.txs.push(tx);
             }
